@@ -529,18 +529,15 @@ class UrlDiff:
             l = UP.parse_qsl(q, keep_blank_values=kb)
             # the model decodes exactly the fields that are kept; a decoded non-ASCII character is outside its fragment
             ok = is_ascii(q) and all(is_ascii(k) and is_ascii(v) for k, v in l)
+            d = UP.parse_qs(q, keep_blank_values=kb)
             if not ok:
                 self.ctx.unmodelled += 1
                 self.qsl.append(("(%s, %s, Unmodelled)" % (coq_bool(kb), coq_str(q)), {"parse_qsl": q, "keep_blank": kb}))
+                self.qs.append(("(%s, %s, Unmodelled)" % (coq_bool(kb), coq_str(q)), {"parse_qs": q, "keep_blank": kb}))
             else:
                 self.qsl.append(("(%s, %s, (Ok %s))" % (coq_bool(kb), coq_str(q), coq_list(
                     ["(%s, %s)" % (coq_str(k), coq_str(v)) for k, v in l], "(pystr * pystr)")), {"parse_qsl": q, "keep_blank": kb, "out": l}))
-            if not kb:
-                d = UP.parse_qs(q)
-                if ok:
-                    self.qs.append(("(%s, (Ok %s))" % (coq_str(q), coq_qd(d)), {"parse_qs": q, "out": d}))
-                else:
-                    self.qs.append(("(%s, Unmodelled)" % coq_str(q), {"parse_qs": q}))
+                self.qs.append(("(%s, %s, (Ok %s))" % (coq_bool(kb), coq_str(q), coq_qd(d)), {"parse_qs": q, "keep_blank": kb, "out": d}))
 
     def flush(self):
         imp = ["Lib.Base", "Lib.PyStr", "Model.Uri"]
@@ -553,8 +550,8 @@ class UrlDiff:
             {"imports": imp, "type": "pystr * res pystr", "chk": "chk_unquote", "cases": self.unq, "label": "unquote"},
             {"imports": imp, "type": "pystr * parse_obs", "chk": "chk_urlparse", "cases": self.prs, "label": "urlparse",
              "diag": "(fun c => parse_view (fst c))"},
-            {"imports": imp, "type": "pystr * res qdict", "chk": "chk_parse_qs", "cases": self.qs, "label": "parseqs",
-             "diag": "(fun c => parse_qs (fst c))"},
+            {"imports": imp, "type": "bool * pystr * res qdict", "chk": "chk_parse_qs", "cases": self.qs, "label": "parseqs",
+             "diag": "(fun c => parse_qs (fst (fst c)) (snd (fst c)))"},
             {"imports": imp, "type": "bool * pystr * res (list (pystr * pystr))", "chk": "chk_parse_qsl", "cases": self.qsl,
              "label": "parseqsl"},
         ]
@@ -1011,7 +1008,10 @@ class Logout:
         # the matcher's decision at this endpoint, for the model (registered entries exactly as stored)
         stored = mk(r["base"])
         if (not other_client and rec["out"] in ("redirect", "URIError", "RedirectURIError", "ValueError")
-                and all(isinstance(e, (str, tuple)) for e in stored)):
+                and (all(isinstance(e, (str, tuple)) for e in stored)
+                     or (len(stored) == 2 and isinstance(stored[0], str) and isinstance(stored[1], dict)))):
+            if len(stored) == 2 and isinstance(stored[0], str) and isinstance(stored[1], dict):
+                stored = [tuple(stored)]          # the single (base, query) pair of dynamic registration
             regs_c = coq_list([("(RStr %s)" % coq_str(e)) if isinstance(e, str) else
                                "(RPair %s %s)" % (coq_str(e[0]), "None" if e[1] is None else "(Some %s)" % coq_qd(e[1]))
                                for e in stored], "reg")
